@@ -1,4 +1,5 @@
 import RxnModel.Proofs.CompactionLsm
+import RxnModel.Proofs.CompactionWriteRun
 import RxnModel.Generated.Facts
 /-!
 # C18 — compaction never changes what the database contains
@@ -192,6 +193,23 @@ theorem real_compaction_commit (as : List DAct) (d : DB) (m : Spec) (cs : Change
   have h2 := scan_spec hi.inv p
   exact sorted_mem_ext h1.1 h2.1 (fun e => by rw [h1.2 e, h2.2 e])
 
+/-- **A failed compaction changes nothing**: when a `Compact` call that would have produced a change set fails
+(a table write or a table scan returns an error) the DKV state — level list, memtables, id counter — is exactly what
+it was, and no change set is pending, so no table written before the failure is referenced by any level; only the
+compactor's cursor may have moved, and every later `Compact` from that cursor is covered by `compact_is_safe`
+(which holds for every cursor). Such steps are part of the histories of `db_reachable_invariant`. -/
+theorem failed_compaction_changes_nothing (d d' : DB) (o : Oracle) (h : d.step (.compactFail o) = some d') :
+    d'.s = d.s ∧ d'.pending = none ∧ d.pending = none := by
+  simp only [DB.step] at h
+  split at h
+  · cases h
+  · rename_i hp
+    split at h
+    · simp only [Option.some.injEq] at h
+      subst h
+      exact ⟨rfl, hp, hp⟩
+    · cases h
+
 /-- **The view of a history is the view of the same history without its compactions** (DKV system of C07, any
 compaction commits that pass the guard): erasing every compaction commit from a history from the empty database
 gives again a history, with the same map of writes, the same `Get` for every key and the same `ScanPrefix` for
@@ -201,6 +219,17 @@ theorem view_is_view_without_compactions (as : List Lsm.Act) (s : Lsm.State) (m 
     ∃ s0, runBoth {} [] (dropCompactions as) = some (s0, m) ∧
       (∀ k, get s k = get s0 k) ∧ (∀ p, scan s p = scan s0 p) :=
   view_without_compactions as s m h
+
+/-- **… also for the reads as the code performs them**: with the table selection of `LevelList.tablesForKey`
+(`SearchUnique` over `RangeKeyCompare`) and `AllTablesForPrefix` (level-0 filter by `RangeContainsPrefix`,
+`BinarySearchFunc` over `RangePrefixCompare`, forward walk) — `Rescale.getR`, `Rescale.scanR`, the definitions the C07
+driver executes — erasing the compaction commits changes no `Get` and no `ScanPrefix`. So "compaction preserves
+scans" holds for the code's choice of tables, not only for the merge of all tables. -/
+theorem view_is_view_without_compactions_code (as : List Lsm.Act) (s : Lsm.State) (m : Spec)
+    (h : runBoth {} [] as = some (s, m)) :
+    ∃ s0, runBoth {} [] (dropCompactions as) = some (s0, m) ∧
+      (∀ k, Rescale.getR s k = Rescale.getR s0 k) ∧ (∀ p, Rescale.scanR s p = Rescale.scanR s0 p) :=
+  view_without_compactions_code as s m h
 
 /-- the same for the system with the real compaction task: whatever the task did (any `Compact` calls, any commit
 points between the foreground actions), the database answers like the one that only ran the foreground actions -/
@@ -226,6 +255,18 @@ it (the model's `age`/`sortByAge`). -/
 theorem source_constants :
     2 ≤ Facts.dkvLevelCount ∧ 1 ≤ Facts.dkvDefaultL0Trigger ∧ Facts.c18AgeIsStartSeqNum = 1 ∧
     Facts.c18StartSeqNumIsFirstEntry = 1 ∧ Facts.c18OrderOldToNewAscending = 1 := by decide
+
+/-- **Structure of the code behind the model's atomic steps** (hard structural facts, re-derived from the source on
+every run; a change of shape is a broken obligation, there is no correspondence that could observe them):
+`bg.AsyncGroup.Enqueue` runs the functions of one queue one at a time (mutex taken before the function is taken from
+the queue and called, released when it returns); every `compactor.Compact` call of `dkv/db.go` runs in a function
+enqueued on one and the same queue (so at most one `Compact` runs and at most one change set is pending);
+`LevelList.NewWithChangeSet` works on a clone of the receiver's levels and `Level`/`Set` operations never write to
+their receiver (a level list read by `currentSSTables()` never changes: `compactBegin` computes on a stable value);
+`db.sstables` is only ever replaced. -/
+theorem source_structure :
+    Facts.c18QueueSerial = 1 ∧ Facts.c18CompactOneQueue = 1 ∧ Facts.c18LevelListPersistent = 1 ∧
+    Facts.c18DbLevelsReplacedOnly = 1 := by decide
 
 /-! ## The defect D22 (repaired): the picker as it was is outside the family and loses the newest version -/
 
